@@ -120,6 +120,8 @@ def run(ctx: Ctx):
     ctx.require(len(un) == 1, "`unassigned` computation not found")
     txt = ast.unparse(un[0].value)
     ctx.ob("C05-O4", "R14 GATE", bt, "leaf test: no named variable has more than one value left", "len(domains[n]) > 1" in txt and "for n in domains" in txt, txt, node=un[0])
+    ifs = [ast.unparse(c) for g_ in un[0].value.generators for c in g_.ifs] if isinstance(un[0].value, ast.ListComp) else ["?"]
+    ctx.ob("C05-O4", "R12 NO-CARDINALITY-CUTOFF", bt, "the search branches on every variable that still has more than one value (unnamed ones included)", ifs == ["len(domains[n]) > 1"], f"branching set filtered by {ifs}: a variable that is never branched on is never decided - a model whose constraints over such variables cannot hold is answered with a solution (all_different over three unnamed 0..1 variables)", node=un[0])
 
     # O5 hints
     check_hints(ctx, dfs, sink="domains")
@@ -360,6 +362,16 @@ def _v_ne_var_wrong_side(tree):
     M.replace_expr(g, lambda e: M.src_is(e, "domains[var2.name].discard(val)"), M.expr("domains[var1.name].discard(val)"))
 
 
+def _v_alldiff_identity(tree):
+    g = M.find_func(tree, "Model._propagate_all_different")
+    M.replace_expr(g, lambda e: M.src_is(e, "j != i"), M.expr("other is not var"))
+
+
+def _v_dfs_skips_unnamed(tree):
+    g = M.find_func(tree, "Model._solve_dfs")
+    M.replace_expr(g, lambda e: isinstance(e, ast.ListComp) and M.src_has(e, "len(domains[n]) > 1"), M.expr("[n for n in domains if len(domains[n]) > 1 and not n.startswith('_')]"))
+
+
 def _v_alldiff_propagator_gutted(tree):
     g = M.find_func(tree, "Model._propagate_all_different")
     g.body = M.stmts("return True")
@@ -385,6 +397,8 @@ def _v_alldiff_min_ub(tree):
 
 
 VARIANTS = [
+    M.Variant("DFS all_different tells positions apart by identity: all_different([x, x]) is accepted (original defect)", CP, _v_alldiff_identity, "C05-O14"),
+    M.Variant("DFS never branches on unnamed (`_v...`) variables (original defect)", CP, _v_dfs_skips_unnamed, "C05-O4"),
     M.Variant("linear != removes the floored quotient without divisibility test (seed C05-A)", CP, _v_no_divisibility, "C05-O8"),
     M.Variant("all_different enumerates values up to the smallest upper bound (seed C05-B)", ENC, _v_alldiff_min_ub, "C05-O9"),
 
